@@ -29,55 +29,67 @@ Definition need_reload (mt : nat -> nat) (st : state) (i : nat) : bool := exists
 Definition upd {A} (m : nat -> A) (i : nat) (v : A) : nat -> A := fun j => if Nat.eqb j i then v else m j.
 Definition set_deps (st : state) (i : nat) (d : list nat) : state := {| deps := upd (deps st) i (Some d); stamps := stamps st |}.
 Definition set_stamps (st : state) (i : nat) (l : list (nat * nat)) : state := {| deps := deps st; stamps := upd (stamps st) i (Some l) |}.
-Definition finish (mt : nat -> nat) (i : nat) (sb : state) : state :=
-  set_stamps sb i (map (fun f => (f, mt f)) (get_deps sb i)).
+(* [srcs i]: the C source files module i lists (source = [...]); they join its dependencies once its text has run *)
+Definition finish0 (mt : nat -> nat) (i : nat) (sc : state) : state :=
+  set_stamps sc i (map (fun f => (f, mt f)) (get_deps sc i)).
+Definition finish (srcs : nat -> list nat) (mt : nat -> nat) (i : nat) (sb : state) : state :=
+  finish0 mt i (set_deps sb i (get_deps sb i ++ srcs i)).
 Definition handoff (st : state) (parent : option nat) (i : nat) : state :=
   match parent with Some w => set_deps st w (get_deps st w ++ get_deps st i) | None => st end.
 
 (* [k] = number of modules below module i in the chain *)
-Fixpoint load (always : bool) (mt : nat -> nat) (k i : nat) (parent : option nat) (st : state) {struct k} : state :=
+Fixpoint load (srcs : nat -> list nat) (always : bool) (mt : nat -> nat) (k i : nat) (parent : option nat) (st : state) {struct k} : state :=
   let reload := need_reload mt st i in
   let st1 := if reload
-             then finish mt i (match k with
-                               | 0 => set_deps st i [i]
-                               | S k' => load always mt k' (S i) (Some i) (set_deps st i [i])
-                               end)
+             then finish srcs mt i (match k with
+                                    | 0 => set_deps st i [i]
+                                    | S k' => load srcs always mt k' (S i) (Some i) (set_deps st i [i])
+                                    end)
              else st in
   if always || reload then handoff st1 parent i else st1.
 
 (* histories: top-level loads of any module of the chain, and edits (a file's time moves forward) *)
 Inductive op := Load (i : nat) | Edit (f : nat) (dt : nat) | Restart.
 Definition world := (state * (nat -> nat))%type.
-Definition step (always : bool) (n : nat) (w : world) (o : op) : world :=
+Definition step (srcs : nat -> list nat) (always : bool) (n : nat) (w : world) (o : op) : world :=
   match o with
-  | Load i => (load always (snd w) (n - i) i None (fst w), snd w)
+  | Load i => (load srcs always (snd w) (n - i) i None (fst w), snd w)
   | Edit f dt => (fst w, upd (snd w) f (snd w f + S dt))
   | Restart => (init, snd w)                 (* a new process: empty caches, the files as they are *)
   end.
-Definition run (always : bool) (n : nat) (ops : list op) : world := fold_left (step always n) ops (init, fun _ => 0).
+Definition run (srcs : nat -> list nat) (always : bool) (n : nat) (ops : list op) : world := fold_left (step srcs always n) ops (init, fun _ => 0).
 
 (* what the code's need_reload answers for modules 0 and 1 just before every load of a history (correspondence) *)
-Fixpoint trace (always : bool) (n : nat) (w : world) (ops : list op) : list (bool * bool) :=
+Fixpoint trace (srcs : nat -> list nat) (always : bool) (n : nat) (w : world) (ops : list op) : list (bool * bool) :=
   match ops with
   | [] => []
   | o :: r => (match o with Load _ => [(need_reload (snd w) (fst w) 0, need_reload (snd w) (fst w) 1)] | _ => [] end)
-              ++ trace always n (step always n w o) r
+              ++ trace srcs always n (step srcs always n w o) r
   end.
 Definition beqb2 (a b : bool * bool) : bool := Bool.eqb (fst a) (fst b) && Bool.eqb (snd a) (snd b).
 Fixpoint list_eqb2 (a b : list (bool * bool)) : bool :=
   match a, b with [], [] => true | x :: a', y :: b' => beqb2 x y && list_eqb2 a' b' | _, _ => false end.
-Fixpoint check_from (always : bool) (k : nat) (cases : list (list op * list (bool * bool))) : list nat :=
+Fixpoint check_from (srcs : nat -> list nat) (always : bool) (k : nat) (cases : list (list op * list (bool * bool))) : list nat :=
   match cases with
   | [] => []
-  | (ops, obs) :: r => (if list_eqb2 (trace always 1 (init, fun _ => 0) ops) obs then [] else [k]) ++ check_from always (S k) r
+  | (ops, obs) :: r => (if list_eqb2 (trace srcs always 1 (init, fun _ => 0) ops) obs then [] else [k]) ++ check_from srcs always (S k) r
   end.
 
 Section Proofs.
 Variable n : nat.
+Variable srcs : nat -> list nat.
+(* the files module j depends on: the files of the modules j..n and the C sources those modules list *)
+Definition Clo (j f : nat) : Prop := j <= f <= n \/ exists m, j <= m <= n /\ In f (srcs m).
+Lemma clo_step j f : Clo j f -> f = j \/ In f (srcs j) \/ Clo (S j) f.
+Proof.
+  intros [H|[m [Hm Hin]]].
+  - destruct (Nat.eq_dec f j) as [->|Hne]; [left; reflexivity | right; right; left; lia].
+  - destruct (Nat.eq_dec m j) as [->|Hne]; [right; left; exact Hin | right; right; right; exists m; split; [lia|exact Hin]].
+Qed.
 
 Definition SelfIn (st : state) : Prop := forall j, In j (get_deps st j).
 Definition InvFrom (i : nat) (st : state) : Prop :=
-  forall j, i <= j -> stamps st j <> None -> forall f, j <= f <= n -> In f (get_deps st j).
+  forall j, i <= j -> stamps st j <> None -> forall f, Clo j f -> In f (get_deps st j).
 Definition NotAhead (mt : nat -> nat) (st : state) : Prop :=
   forall j l f t, stamps st j = Some l -> lookup l f = Some t -> t <= mt f.
 
@@ -108,9 +120,9 @@ Proof.
   - apply IH; exact H.
 Qed.
 
-Lemma need_reload_finish mt i sb : need_reload mt (finish mt i sb) i = false.
+Lemma need_reload_finish mt i sb : need_reload mt (finish0 mt i sb) i = false.
 Proof.
-  unfold need_reload, finish. change (get_deps (set_stamps sb i ?l) i) with (get_deps sb i).
+  unfold need_reload, finish0. change (get_deps (set_stamps sb i ?l) i) with (get_deps sb i).
   apply not_true_is_false. intros H. apply existsb_exists in H. destruct H as [f [Hin Hs]].
   unfold stale_file, set_stamps in Hs; cbn [stamps] in Hs. rewrite upd_same in Hs.
   rewrite (lookup_map mt _ _ Hin) in Hs. rewrite Nat.ltb_irrefl in Hs. discriminate.
@@ -129,7 +141,7 @@ Definition Spec (mt : nat -> nat) (i : nat) (parent : option nat) (st st' : stat
   SelfIn st' /\ InvFrom i st' /\ NotAhead mt st' /\ need_reload mt st' i = false /\
   (forall j, j < i -> stamps st' j = stamps st j /\ (parent <> Some j -> deps st' j = deps st j)) /\
   (forall w, parent = Some w ->
-     (forall f, In f (get_deps st w) -> In f (get_deps st' w)) /\ (forall f, i <= f <= n -> In f (get_deps st' w))).
+     (forall f, In f (get_deps st w) -> In f (get_deps st' w)) /\ (forall f, Clo i f -> In f (get_deps st' w))).
 
 (* the hand-off, given what the reload branch (or its absence) established *)
 Lemma handoff_spec mt i parent st st1 :
@@ -165,9 +177,9 @@ Qed.
 (* the reload branch, given what the execution of the module's text (the child's load) established *)
 Lemma finish_spec mt i st sb :
   SelfIn sb -> InvFrom (S i) sb -> NotAhead mt sb ->
-  (forall f, i <= f <= n -> In f (get_deps sb i)) ->
+  (forall f, Clo i f -> In f (get_deps sb i)) ->
   (forall j, j < i -> stamps sb j = stamps st j /\ deps sb j = deps st j) ->
-  let st1 := finish mt i sb in
+  let st1 := finish0 mt i sb in
   SelfIn st1 /\ InvFrom i st1 /\ NotAhead mt st1 /\ need_reload mt st1 i = false /\
   (forall j, j < i -> stamps st1 j = stamps st j /\ deps st1 j = deps st j).
 Proof.
@@ -175,58 +187,76 @@ Proof.
   - exact Hself.
   - intros j Hij Hst f Hf. change (get_deps st1 j) with (get_deps sb j).
     destruct (Nat.eq_dec j i) as [->|Hj]; [apply Hcl; exact Hf|].
-    apply (Hinv j); [lia| |exact Hf]. unfold st1, finish, set_stamps in Hst; cbn [stamps] in Hst.
+    apply (Hinv j); [lia| |exact Hf]. unfold st1, finish0, set_stamps in Hst; cbn [stamps] in Hst.
     rewrite upd_other in Hst by exact Hj. exact Hst.
-  - intros j l f t Hl Hlk. unfold st1, finish, set_stamps in Hl; cbn [stamps] in Hl.
+  - intros j l f t Hl Hlk. unfold st1, finish0, set_stamps in Hl; cbn [stamps] in Hl.
     destruct (Nat.eq_dec j i) as [->|Hj].
     + rewrite upd_same in Hl. injection Hl as <-. apply lookup_map_inv in Hlk. lia.
     + rewrite upd_other in Hl by exact Hj. apply (Hna j l f t Hl Hlk).
   - apply need_reload_finish.
-  - intros j Hj. unfold st1, finish, set_stamps; cbn [stamps deps]. rewrite upd_other by lia. apply Hframe; exact Hj.
+  - intros j Hj. unfold st1, finish0, set_stamps; cbn [stamps deps]. rewrite upd_other by lia. apply Hframe; exact Hj.
+Qed.
+
+(* the whole reload branch after the module's text has run: its C sources join the dependencies, then the stamps *)
+Lemma reload_spec mt i st sb :
+  SelfIn sb -> InvFrom (S i) sb -> NotAhead mt sb ->
+  In i (get_deps sb i) -> (forall f, Clo (S i) f -> In f (get_deps sb i)) ->
+  (forall j, j < i -> stamps sb j = stamps st j /\ deps sb j = deps st j) ->
+  let st1 := finish srcs mt i sb in
+  SelfIn st1 /\ InvFrom i st1 /\ NotAhead mt st1 /\ need_reload mt st1 i = false /\
+  (forall j, j < i -> stamps st1 j = stamps st j /\ deps st1 j = deps st j).
+Proof.
+  intros Hself Hinv Hna Hi Hcl Hframe. unfold finish. apply finish_spec.
+  - intros j. destruct (Nat.eq_dec j i) as [->|Hj].
+    + rewrite get_deps_set_same. apply in_or_app. left. apply Hself.
+    + rewrite get_deps_set_other by exact Hj. apply Hself.
+  - intros j Hij Hst f Hf. rewrite get_deps_set_other by lia. apply (Hinv j Hij Hst f Hf).
+  - exact Hna.
+  - intros f Hf. rewrite get_deps_set_same. apply in_or_app.
+    destruct (clo_step i f Hf) as [->|[Hs|Hc]]; [left; exact Hi | right; exact Hs | left; apply Hcl; exact Hc].
+  - intros j Hj. split; [apply Hframe; exact Hj|]. rewrite deps_set_other by lia. apply Hframe; exact Hj.
+Qed.
+
+Lemma sa_facts i st : SelfIn st -> InvFrom i st ->
+  let sa := set_deps st i [i] in
+  SelfIn sa /\ InvFrom (S i) sa /\ In i (get_deps sa i) /\ (forall j, j < i -> stamps sa j = stamps st j /\ deps sa j = deps st j).
+Proof.
+  intros Hself Hinv sa. refine (conj _ (conj _ (conj _ _))).
+  - intros j. destruct (Nat.eq_dec j i) as [->|Hj].
+    + unfold sa. rewrite get_deps_set_same. left. reflexivity.
+    + unfold sa. rewrite get_deps_set_other by exact Hj. apply Hself.
+  - intros j Hij Hst f Hf. unfold sa. rewrite get_deps_set_other by lia. apply (Hinv j); [lia|exact Hst|exact Hf].
+  - unfold sa. rewrite get_deps_set_same. left. reflexivity.
+  - intros j Hj. split; [reflexivity | apply deps_set_other; lia].
 Qed.
 
 Lemma load_spec mt : forall k i parent st,
   i + k = n -> (forall w, parent = Some w -> w < i) ->
   SelfIn st -> InvFrom i st -> NotAhead mt st ->
-  Spec mt i parent st (load true mt k i parent st).
+  Spec mt i parent st (load srcs true mt k i parent st).
 Proof.
   induction k as [|k IH]; intros i parent st Hik Hp Hself Hinv Hna.
-  - cbn [load orb]. apply handoff_spec; try exact Hp.
-    all: destruct (need_reload mt st i) eqn:Hnr.
-    all: try (assert (Hfin := finish_spec mt i st (set_deps st i [i]))).
-    all: try (destruct Hfin as (H1 & H2 & H3 & H4 & H5);
-      [ intros j; destruct (Nat.eq_dec j i) as [->|Hj];
-          [rewrite get_deps_set_same; left; reflexivity | rewrite get_deps_set_other by exact Hj; apply Hself]
-      | intros j Hij Hst f Hf; rewrite get_deps_set_other by lia; apply (Hinv j); [lia|exact Hst|exact Hf]
-      | exact Hna
-      | intros f Hf; rewrite get_deps_set_same; left; lia
-      | intros j Hj; split; [reflexivity | apply deps_set_other; lia]
-      | ]).
-    all: try assumption.
-    intros j Hj. split; reflexivity.
-  - cbn [load orb]. apply handoff_spec; try exact Hp.
-    all: destruct (need_reload mt st i) eqn:Hnr.
-    all: try assumption.
-    all: try (intros j Hj; split; reflexivity).
-    all: set (sa := set_deps st i [i]).
-    all: assert (Spec mt (S i) (Some i) sa (load true mt k (S i) (Some i) sa)) as Hc by
-      (apply IH;
-       [ lia
-       | intros w Hw; injection Hw as <-; lia
-       | intros j; destruct (Nat.eq_dec j i) as [->|Hj];
-           [unfold sa; rewrite get_deps_set_same; left; reflexivity | unfold sa; rewrite get_deps_set_other by exact Hj; apply Hself]
-       | intros j Hij Hst f Hf; unfold sa; rewrite get_deps_set_other by lia; apply (Hinv j); [lia|exact Hst|exact Hf]
-       | exact Hna ]).
-    all: destruct Hc as (C1 & C2 & C3 & _ & C5 & C6).
-    all: destruct (C6 i eq_refl) as [Cmono Ccl].
-    all: assert (Hfin := finish_spec mt i st (load true mt k (S i) (Some i) sa) C1 C2 C3).
-    all: destruct Hfin as (H1 & H2 & H3 & H4 & H5);
-      [ intros f Hf; destruct (Nat.eq_dec f i) as [->|Hfi];
-          [apply Cmono; unfold sa; rewrite get_deps_set_same; left; reflexivity | apply Ccl; lia]
-      | intros j Hj; destruct (C5 j) as [D1 D2]; [lia|]; split;
-          [rewrite D1; reflexivity | rewrite D2 by (intros Hc; injection Hc as ->; lia); unfold sa; apply deps_set_other; lia]
-      | ].
-    all: assumption.
+  - cbn [load orb]. destruct (need_reload mt st i) eqn:Hnr.
+    + destruct (sa_facts i st Hself Hinv) as (A1 & A2 & A3 & A4).
+      destruct (reload_spec mt i st (set_deps st i [i]) A1 A2 Hna A3) as (H1 & H2 & H3 & H4 & H5).
+      * intros f [Hf|[m [Hm _]]]; lia.
+      * exact A4.
+      * apply handoff_spec; assumption.
+    + apply handoff_spec; try assumption. intros j Hj. split; reflexivity.
+  - cbn [load orb]. destruct (need_reload mt st i) eqn:Hnr.
+    + destruct (sa_facts i st Hself Hinv) as (A1 & A2 & A3 & A4).
+      set (sa := set_deps st i [i]) in *.
+      assert (Spec mt (S i) (Some i) sa (load srcs true mt k (S i) (Some i) sa)) as Hc.
+      { apply IH; [lia | intros w Hw; injection Hw as <-; lia | exact A1 | exact A2 | exact Hna]. }
+      destruct Hc as (C1 & C2 & C3 & _ & C5 & C6). destruct (C6 i eq_refl) as [Cmono Ccl].
+      destruct (reload_spec mt i st (load srcs true mt k (S i) (Some i) sa) C1 C2 C3) as (H1 & H2 & H3 & H4 & H5).
+      * apply Cmono. exact A3.
+      * exact Ccl.
+      * intros j Hj. destruct (C5 j) as [D1 D2]; [lia|]. destruct (A4 j Hj) as [E1 E2]. split.
+        -- rewrite D1. exact E1.
+        -- rewrite D2 by (intros Hc; injection Hc as ->; lia). exact E2.
+      * apply handoff_spec; assumption.
+    + apply handoff_spec; try assumption. intros j Hj. split; reflexivity.
 Qed.
 
 (* every state a history of top-level loads and edits reaches keeps the invariants *)
@@ -240,7 +270,7 @@ Proof.
   - intros j l f t H. discriminate H.
 Qed.
 
-Lemma good_step w o : (forall i, o = Load i -> i <= n) -> Good w -> Good (step true n w o).
+Lemma good_step w o : (forall i, o = Load i -> i <= n) -> Good w -> Good (step srcs true n w o).
 Proof.
   intros Hle (Hs & Hi & Ha). destruct w as [st mt]. cbn in *. destruct o as [i|f dt|]; cbn.
   - assert (i <= n) as Hin by (apply Hle; reflexivity).
@@ -261,7 +291,7 @@ Proof.
     intros j l g t H. discriminate H.
 Qed.
 
-Lemma good_run ops : (forall i, In (Load i) ops -> i <= n) -> Good (run true n ops).
+Lemma good_run ops : (forall i, In (Load i) ops -> i <= n) -> Good (run srcs true n ops).
 Proof.
   unfold run. generalize good_init. generalize ((init, fun _ : nat => 0) : world).
   induction ops as [|o ops IH]; intros w Hw Hle; cbn [fold_left]; [exact Hw|].
@@ -273,21 +303,21 @@ Qed.
 (* after ANY history, once module i has been loaded, a later change of ANY file of its chain makes it stale *)
 Lemma nested_edit_seen ops i :
   (forall j, In (Load j) ops -> j <= n) -> i <= n ->
-  let w := run true n (ops ++ [Load i]) in
+  let w := run srcs true n (ops ++ [Load i]) in
   need_reload (snd w) (fst w) i = false /\
-  forall mt', (forall f, snd w f <= mt' f) -> (exists f0, i <= f0 <= n /\ snd w f0 < mt' f0) ->
+  forall mt', (forall f, snd w f <= mt' f) -> (exists f0, Clo i f0 /\ snd w f0 < mt' f0) ->
   need_reload mt' (fst w) i = true.
 Proof.
   intros Hle Hi w.
-  assert (Good (run true n ops)) as Hg by (apply good_run; exact Hle).
-  unfold w, run. rewrite fold_left_app. fold (run true n ops). cbn [fold_left step].
-  destruct (run true n ops) as [st mt]. destruct Hg as (Hs & Hinv & Ha). cbn in *.
+  assert (Good (run srcs true n ops)) as Hg by (apply good_run; exact Hle).
+  unfold w, run. rewrite fold_left_app. fold (run srcs true n ops). cbn [fold_left step].
+  destruct (run srcs true n ops) as [st mt]. destruct Hg as (Hs & Hinv & Ha). cbn in *.
   destruct (load_spec mt (n - i) i None st) as (S1 & S2 & S3 & S4 & _ & _); try assumption.
   - lia.
   - discriminate.
   - intros j Hij. apply Hinv. lia.
   - split; [exact S4|]. intros mt' Hmono [f0 [Hf0 Hlt]].
-    set (st' := load true mt (n - i) i None st) in *.
+    set (st' := load srcs true mt (n - i) i None st) in *.
     assert (stamps st' i <> None) as Hst by (apply (not_reload_stamped mt); assumption).
     unfold need_reload. apply existsb_exists. exists f0. split.
     + apply (S2 i (le_n i) Hst f0 Hf0).
@@ -300,9 +330,15 @@ End Proofs.
 (* with the hand-off inside the reload branch the statement fails: base loaded alone, then the wrapper, then the base
    edited - the wrapper is not stale *)
 Lemma nested_inside_refuted :
-  let w := run false 1 [Load 1; Load 0; Edit 1 0] in need_reload (snd w) (fst w) 0 = false.
+  let w := run (fun _ => []) false 1 [Load 1; Load 0; Edit 1 0] in need_reload (snd w) (fst w) 0 = false.
 Proof. vm_compute. reflexivity. Qed.
 (* ... and the same history with the hand-off where the code has it *)
 Example nested_example :
-  let w := run true 1 [Load 1; Load 0; Edit 1 0] in need_reload (snd w) (fst w) 0 = true.
+  let w := run (fun _ => []) true 1 [Load 1; Load 0; Edit 1 0] in need_reload (snd w) (fst w) 0 = true.
 Proof. vm_compute. reflexivity. Qed.
+(* ... and with a C source (file 7) listed by the base module: the wrapper, loaded once, sees its edit *)
+Example nested_source_example :
+  let srcs := fun m => if Nat.eqb m 1 then [7] else [] in
+  let w := run srcs true 1 [Load 0; Edit 7 0] in
+  need_reload (snd w) (fst w) 0 = true /\ need_reload (snd (run srcs true 1 [Load 0])) (fst (run srcs true 1 [Load 0])) 0 = false.
+Proof. vm_compute. split; reflexivity. Qed.
